@@ -22,15 +22,19 @@
 (* Transforms are translations along x (integers): enough to tell world    *)
 (* placements apart; products of general matrices are C09's business.      *)
 (*                                                                         *)
-(* Named deviations of the code from the stated behaviour (constants):     *)
-(*   AsBuiltNodeOverwrite  add_geometry(node_name = <existing node>) re-   *)
-(*       aims that node at the new geometry (and re-parents it) instead of *)
-(*       allocating a fresh node name: clause (2) NoOverwrite fails.       *)
+(* Named deviation of the code from the stated behaviour (constant):       *)
 (*   AsBuiltDupNeedsPath   duplicate_nodes looks the geometry name up via  *)
 (*       graph[node], which needs a path from the base frame: it raises    *)
 (*       when an instance node is detached (after remove_node of an        *)
 (*       ancestor): clause (5) DupCorrect fails.                           *)
 (* Accommodations (modelled as built, not judged):                         *)
+(*   add_geometry(node_name = <existing node>) is an UPDATE of that node:  *)
+(*       it is re-aimed at the new geometry and re-parented / re-placed    *)
+(*       (Scene.scaled relies on exactly this); the geometry it instanced  *)
+(*       before stays in scene.geometry.  Only names the scene CHOOSES     *)
+(*       (geometry names, default node names) are made unique, so clause   *)
+(*       (2) is stated for those.  A list with an explicit node name puts  *)
+(*       every element on that one node: the last one stays.               *)
 (*   add_geometry(Scene) rebuilds the graph from edge lists: nodes without *)
 (*       any edge vanish, root nodes lose their geometry attribute, nodes  *)
 (*       of the added scene whose names are taken get a random suffix.     *)
@@ -51,7 +55,7 @@ CONSTANTS Objs,        \* geometry objects offered (strings: "box" "box2" "tet" 
           ParentMode,  \* "none" | "inst" | "all": which parent_node_name values are offered
           MaxDepth,
           Emitting,    \* FALSE: the history keeps only its length (model checking)
-          AsBuiltNodeOverwrite, AsBuiltDupNeedsPath,
+          AsBuiltDupNeedsPath,
           MutNoUniqueGeom,     \* add_geometry stores under the requested name without unique_name   -> NoOverwrite
           MutNodeNotUnique,    \* default node name = geometry name even when that node exists       -> NoOverwrite
           MutReturnGeomName,   \* add_geometry returns the geometry name instead of the node name    -> AddReturns
@@ -121,8 +125,7 @@ GUpdate(s, u, v, x, g) ==
 UpdOK(s, u, v) == u # v /\ v # World /\ (v \in s.nodes => u \notin Desc(s, v))
 
 \* Scene.add_geometry(geometry = o, geom_name = gn, node_name = nn, parent_node_name = p, transform = T(x))
-\* asb: the code's treatment of an explicit node name that exists already
-AddOne(s, o, gn, nn, p, x, asb) ==
+AddOne(s, o, gn, nn, p, x) ==
     LET start == IF gn # NoName THEN gn
                  ELSE IF Meta(o) # "" THEN N(Meta(o))
                  ELSE IF File(o) # "" THEN N(File(o))
@@ -133,25 +136,25 @@ AddOne(s, o, gn, nn, p, x, asb) ==
                 ELSE Append(s.geo, [n |-> name, o |-> o])
         node == IF nn = NoName
                 THEN (IF MutNodeNotUnique THEN name ELSE Unique(name, s.nodes))
-                ELSE (IF asb THEN nn ELSE Unique(nn, s.nodes))
+                ELSE nn                                         \* taken literally: update of that node
         u    == IF p = NoName THEN World ELSE p
     IN [s   |-> GUpdate([s EXCEPT !.geo = geo2], u, node, x, name),
         ret |-> IF MutReturnGeomName THEN name ELSE node,
-        dev |-> nn # NoName /\ nn \in s.nodes,                  \* AsBuiltNodeOverwrite is exercised
-        ok  |-> (p = NoName \/ p \in s.nodes) /\ UpdOK(s, u, node) /\ UpdOK(s, u, IF nn = NoName THEN node ELSE nn)]
+        dev |-> nn # NoName /\ nn \in s.nodes,                  \* an existing node is re-aimed
+        ok  |-> (p = NoName \/ p \in s.nodes) /\ UpdOK(s, u, node)]
 
 \* a list: the same keyword arguments are passed along for every element
-RECURSIVE AddSeq(_, _, _, _, _, _, _, _)
-AddSeq(s, os, gn, nn, p, x, asb, i) ==
+RECURSIVE AddSeq(_, _, _, _, _, _, _)
+AddSeq(s, os, gn, nn, p, x, i) ==
     IF i > Len(os) THEN [s |-> s, ret |-> <<>>, dev |-> FALSE, ok |-> TRUE]
-    ELSE LET a == AddOne(s, os[i], gn, nn, p, x, asb)
-             r == AddSeq(a.s, os, gn, nn, p, x, asb, i + 1)
+    ELSE LET a == AddOne(s, os[i], gn, nn, p, x)
+             r == AddSeq(a.s, os, gn, nn, p, x, i + 1)
          IN [s |-> r.s, ret |-> <<a.ret>> \o r.ret, dev |-> a.dev \/ r.dev, ok |-> a.ok /\ r.ok]
 \* a dict: add_geometry(geometry = v, geom_name = k) for every item, nothing else passed along
 RECURSIVE AddMap(_, _, _)
 AddMap(s, d, i) ==
     IF i > Len(d) THEN [s |-> s, ret |-> <<>>, dev |-> FALSE, ok |-> TRUE]
-    ELSE LET a == AddOne(s, d[i].o, N(d[i].k), NoName, NoName, 0, TRUE)
+    ELSE LET a == AddOne(s, d[i].o, N(d[i].k), NoName, NoName, 0)
              r == AddMap(a.s, d, i + 1)
          IN [s |-> r.s, ret |-> <<[k |-> d[i].k, v |-> a.ret]>> \o r.ret, dev |-> FALSE, ok |-> a.ok /\ r.ok]
 
@@ -163,7 +166,7 @@ RecipeOps(k) == CASE k = 1 -> <<Op("box", NoName, NoName, NoName, 0)>>
                   [] k = 4 -> <<Op("box2", N("a"), NoName, NoName, 1), Op("box", NoName, NoName, N("a"), 3)>>
 RECURSIVE RunRecipe(_, _, _)
 RunRecipe(s, ops, i) == IF i > Len(ops) THEN s
-                        ELSE RunRecipe(AddOne(s, ops[i].o, ops[i].gn, ops[i].nn, ops[i].p, ops[i].x, TRUE).s, ops, i + 1)
+                        ELSE RunRecipe(AddOne(s, ops[i].o, ops[i].gn, ops[i].nn, ops[i].p, ops[i].x).s, ops, i + 1)
 Other(k) == RunRecipe(Empty, RecipeOps(k), 1)
 
 \* Scene.add_geometry(Scene t):  concat = append_scenes([self, t], common = [base]) ; geometry and
@@ -267,32 +270,27 @@ NameOpt(S) == {NoName} \cup {N(b) : b \in S}
 Mutated(s2) == st' = s2 /\ hm' = Dirty /\ UNCHANGED <<gc, sc>>
 
 Add(o, gn, nn, p) ==
-    LET a == AddOne(st, o, gn, nn, p, Xnow, AsBuiltNodeOverwrite)
-        i == AddOne(st, o, gn, nn, p, Xnow, FALSE)
-    IN /\ "add" \in Ops /\ a.ok /\ i.ok
+    LET a == AddOne(st, o, gn, nn, p, Xnow)
+    IN /\ "add" \in Ops /\ a.ok
        /\ Mutated(a.s)
-       /\ last' = [op |-> "add", objs |-> <<o>>, rets |-> <<a.ret>>]
+       /\ last' = [op |-> "add", objs |-> <<o>>, rets |-> <<a.ret>>, nn |-> nn]
        /\ Log([op |-> "add", o |-> o, gn |-> Render(gn), nn |-> Render(nn), p |-> Render(p), x |-> Xnow,
-               ret |-> Render(a.ret), st |-> StJ(a.s), dev |-> a.dev,
-               alt |-> IF a.dev THEN [ret |-> Render(i.ret), st |-> StJ(i.s)] ELSE [ret |-> ""]])
+               ret |-> Render(a.ret), st |-> StJ(a.s), reaim |-> a.dev])
 
 AddList(os, gn, nn, p) ==
-    LET a == AddSeq(st, os, gn, nn, p, Xnow, AsBuiltNodeOverwrite, 1)
-        i == AddSeq(st, os, gn, nn, p, Xnow, FALSE, 1)
-    IN /\ "addlist" \in Ops /\ a.ok /\ i.ok
+    LET a == AddSeq(st, os, gn, nn, p, Xnow, 1)
+    IN /\ "addlist" \in Ops /\ a.ok
        /\ Mutated(a.s)
-       /\ last' = [op |-> "add", objs |-> os, rets |-> a.ret]
+       /\ last' = [op |-> "add", objs |-> os, rets |-> a.ret, nn |-> nn]
        /\ Log([op |-> "addlist", os |-> os, gn |-> Render(gn), nn |-> Render(nn), p |-> Render(p), x |-> Xnow,
-               ret |-> [k \in DOMAIN a.ret |-> Render(a.ret[k])], st |-> StJ(a.s), dev |-> a.dev,
-               alt |-> IF a.dev THEN [ret |-> [k \in DOMAIN i.ret |-> Render(i.ret[k])], st |-> StJ(i.s)]
-                       ELSE [ret |-> <<>>]])
+               ret |-> [k \in DOMAIN a.ret |-> Render(a.ret[k])], st |-> StJ(a.s), reaim |-> a.dev])
 
 AddDict(d) ==
     LET a == AddMap(st, d, 1)
     IN /\ "adddict" \in Ops /\ a.ok
        /\ Mutated(a.s)
        /\ last' = [op |-> "add", objs |-> [k \in DOMAIN d |-> d[k].o],
-                   rets |-> [k \in DOMAIN a.ret |-> a.ret[k].v]]
+                   rets |-> [k \in DOMAIN a.ret |-> a.ret[k].v], nn |-> NoName]
        /\ Log([op |-> "adddict", d |-> d, ret |-> [k \in DOMAIN a.ret |-> [k |-> a.ret[k].k, v |-> Render(a.ret[k].v)]],
                st |-> StJ(a.s)])
 
@@ -416,19 +414,21 @@ SubsceneCorrect == \A v \in st.nodes : ImplSub(st, v) = RefSub(st, v)
 \* The clauses about one operation are action properties: TLC evaluates them on every transition
 \* (st = before, st' = after, last' = what the operation returned).
 \* (1) every returned name is a node whose geometry attribute names the entry holding what was added
+\*     (a list under one explicit node name leaves only its last element on that node)
 AddReturnsA ==
     last'.op = "add" =>
-        \A k \in DOMAIN last'.rets :
+        \A k \in DOMAIN last'.rets : (last'.nn = NoName \/ k = Len(last'.rets)) =>
             /\ last'.rets[k] \in st'.nodes /\ last'.rets[k] \in DOMAIN st'.ng
             /\ st'.ng[last'.rets[k]] \in GeoNames(st')
             /\ GeoObj(st', st'.ng[last'.rets[k]]) = last'.objs[k]
-\* (2) adding never overwrites or re-aims an existing entry
+\* (2) adding never overwrites an entry of scene.geometry and never re-aims or moves a node,
+\*     other than the node the caller named explicitly
 NoOverwriteA ==
     last'.op = "add" =>
         /\ Len(st'.geo) = Len(st.geo) + Len(last'.objs)
         /\ \A i \in DOMAIN st.geo : st'.geo[i] = st.geo[i]
-        /\ \A v \in DOMAIN st.ng : v \in DOMAIN st'.ng /\ st'.ng[v] = st.ng[v]
-        /\ \A v \in DOMAIN st.par : v \in DOMAIN st'.par /\ st'.par[v] = st.par[v] /\ st'.off[v] = st.off[v]
+        /\ \A v \in DOMAIN st.ng \ {last'.nn} : v \in DOMAIN st'.ng /\ st'.ng[v] = st.ng[v]
+        /\ \A v \in DOMAIN st.par \ {last'.nn} : v \in DOMAIN st'.par /\ st'.par[v] = st.par[v] /\ st'.off[v] = st.off[v]
 \* ... a scene too, for everything that hangs on an edge (see the accommodation in the header)
 NoOverwriteSceneA ==
     last'.op = "addscene" =>
